@@ -8,6 +8,26 @@ def check(tier, seed):
     rep = Report("C09", tier, seed, "proof")
     ok = proof_stage(rep, PROP_MODULE)
     res = gc_corr.run_correspondence(rep, tier, seed)
+    # the collector as the VM uses it: an allocation-heavy program with bounded live data at EVERY heap size of a window, in lockstep
+    # on the Lean VM over M-Heap (same free-list order => same cell numbers): the heap runs out / the 80 %% trigger fires at every
+    # allocation in turn; a cell handed out while in use, a collection where there is no safe point, a lost cell all show as a
+    # diverging trace or a sanitizer report.  (C04 and C14 run the same sweep for their own observables.)
+    import vm_corr, vm_checks, progs
+    h = vm_corr.VmHarness()
+    vstats = {}
+    try:
+        fam = [p for p in progs.generate(seed, 1) if p[2].get("alloc") and p[0].startswith(("alloc_records", "alloc_strings", "alloc_arrays"))]
+        jobs = [dict(name="%s_m%d" % (n, m), src=src, args=["9"], gc=0, mem=m, stack=200) for (n, src, meta) in fam[: (2 if tier == "quick" else 3)]
+                for m in range(24, 120 if tier == "quick" else 400)]
+        def on_result(j, r, st, det, io):
+            k = io["kind"]
+            if k.startswith(("sanitizer", "signal", "assert", "crash")):
+                return False        # reported by the sweep as a divergence / crash with its trace
+            return False
+        vm_checks.sweep(h, rep, jobs, "c09_vm", vstats, on_result)
+    finally:
+        h.close()
+    res["stats"]["vm_level_heap_sweep"] = {k: v for k, v in vstats.items() if not k.startswith("_")}
     rep.cov.update(trusted_base=["Lean 4.33 kernel", "axioms: propext, Classical.choice, Quot.sound",
                                  "correspondence harness h_gc.c + gc_corr.py (generator, state printer)",
                                  "gcc/ASan/UBSan runtime", "malloc/free"],
